@@ -262,7 +262,7 @@ pub fn synthetic(ctx: &Ctx, rep: &mut Report) {
     // the committed witness of the known finding first
     check_input(&witness(), "committed-witness", rep);
     check_input(&(vec![2, 0], vec![0, 0], vec![1, 0], vec![0, 0]), "committed-witness-2", rep);
-    let per_n = ctx.sz(400, 12000);
+    let per_n = ctx.sz(400, 60000);
     let sizes: Vec<usize> = (1..=10).map(|k| 1usize << k).collect();
     let r = par_for(sizes.len() * 8, ncpu(), |job, rep| {
         let n = sizes[job % sizes.len()];
